@@ -43,6 +43,9 @@ type Serve struct {
 	RType   int8   `json:"rtype"`             // 2 = Reply, 3 = Exception
 	Resp    *wm.W  `json:"resp"`              // the response body, a struct
 	FailAt  int    `json:"fail_at,omitempty"` // write-fail: fields written before the Enveloper gives up
+	// Mismatch: the caller expects a oneway request (type 4) while the envelope says Call: reading
+	// the request must fail for enveloped framings (and must leave the protocol object intact)
+	Mismatch bool `json:"mismatch,omitempty"`
 }
 
 func (s *Serve) String() string {
@@ -171,6 +174,7 @@ func genServe(t *rapid.T, label string) *Serve {
 	if sv.Respond == respondWriteFail {
 		sv.FailAt = rapid.IntRange(0, 3).Draw(t, label+"_failat")
 	}
+	sv.Mismatch = rapid.IntRange(0, 5).Draw(t, label+"_mismatch") == 0
 	return sv
 }
 
